@@ -3,7 +3,7 @@
 tier=${1:-quick}
 cd "$(dirname "$0")/.."
 ids=$(python3 -c "import json;print(' '.join(c['property_id'] for c in json.load(open('MANIFEST.json'))['checks']))")
-( cd lean && lake build EoNVerif driver EoNVerif.Props >/dev/null 2>&1 )
+( cd lean && lake build EoNVerif driver EoNVerif.Props >/tmp/runall_build.log 2>&1 ) || { echo "SETUP BUILD FAILED"; grep -E "error" /tmp/runall_build.log | head -5; }
 for p in $ids; do
   ( /venv/bin/python harness/check.py $p --tier $tier > /tmp/runall_$p.log 2>&1; echo "$p exit=$? $(tail -1 /tmp/runall_$p.log)" ) &
 done
